@@ -1198,19 +1198,21 @@ def archive_item():
     status test and raise nothing but CreateArchiveFailed."""
     # ---- (a)
     f = _find_function("conductor/cli/archive.py", "handle_output_path")
-    leaves = {"raw_output_path is None": "(negb given)", "output_path.exists()": "exists_", "output_path.is_dir()": "is_dir",
-              "output_path.parent.exists()": "parent_exists", "output_path.parent.is_dir()": "parent_is_dir"}
-    binding = {}
+    # `output_path` is bound to: GEN (cond-out/<generated name>), GIVEN (the -o argument), GENDIR (<the -o directory>/<generated name>)
+    common_leaves = {"raw_output_path is None": "(negb given)"}
+    given_leaves = {"output_path.exists()": "exists_", "output_path.is_dir()": "is_dir", "output_path.parent.exists()": "parent_exists", "output_path.parent.is_dir()": "parent_is_dir"}
+    gen_leaves = {"output_path.exists()": "gen_exists"}
 
-    def cond(node):
+    def cond(node, bound):
         src = ast.unparse(node)
+        leaves = dict(common_leaves, **(given_leaves if bound == "GIVEN" else gen_leaves if bound in ("GEN", "GENDIR") else {}))
         if src in leaves:
             return leaves[src]
         if isinstance(node, ast.UnaryOp) and isinstance(node.op, ast.Not):
-            return "(negb %s)" % cond(node.operand)
+            return "(negb %s)" % cond(node.operand, bound)
         if isinstance(node, ast.BoolOp):
             op = {ast.And: " && ", ast.Or: " || "}[type(node.op)]
-            return "(" + op.join(cond(v) for v in node.values) + ")"
+            return "(" + op.join(cond(v, bound) for v in node.values) + ")"
         raise Unsupported("handle_output_path: condition outside the supported fragment: %s" % src)
 
     def block(stmts, bound):
@@ -1220,16 +1222,18 @@ def archive_item():
         src = ast.unparse(st)
         if isinstance(st, ast.Assign) and len(st.targets) == 1 and ast.unparse(st.targets[0]) == "output_path":
             val = ast.unparse(st.value)
-            if val == "pathlib.Path(ctx.output_path, generate_archive_name())":
+            if val == "pathlib.Path(ctx.output_path, generate_archive_name())" and bound is None:
                 return block(rest, "GEN")
-            if val == "pathlib.Path(raw_output_path)":
+            if val == "pathlib.Path(raw_output_path)" and bound is None:
                 return block(rest, "GIVEN")
+            if val == "output_path / generate_archive_name()" and bound == "GIVEN":
+                return block(rest, "GENDIR")
             raise Unsupported("handle_output_path: output_path = %s" % val)
         if isinstance(st, ast.Return):
             val = ast.unparse(st.value)
             if val == "output_path" and bound == "GEN":
                 return "0%N"
-            if val == "output_path / generate_archive_name()" and bound == "GIVEN":
+            if (val == "output_path / generate_archive_name()" and bound == "GIVEN") or (val == "output_path" and bound == "GENDIR"):
                 return "1%N"
             if val == "output_path" and bound == "GIVEN":
                 return "2%N"
@@ -1246,11 +1250,12 @@ def archive_item():
                 raise Unsupported("handle_output_path tests the path before it is bound")
             then = block(list(st.body) + rest, bound)           # a branch that does not return falls through to what follows
             other = block(list(st.orelse) + rest, bound)
-            return "(if %s then %s else %s)" % (cond(st.test), then, other)
+            return "(if %s then %s else %s)" % (cond(st.test, bound), then, other)
         raise Unsupported("handle_output_path: statement outside the supported fragment: %s" % src)
 
+    if getattr(f, "decorator_list", None):
+        raise Unsupported("handle_output_path is decorated")
     decision = block(_body_without_docstring(f), None)
-    del binding
     # ---- (b)
     m = _find_function("conductor/cli/archive.py", "main")
     calls = [("ctx = Context.from_cwd()", None), ("output_archive_path = handle_output_path(ctx, args.output)", 1),
@@ -1325,7 +1330,7 @@ def archive_item():
         raise Unsupported("create_archive touches the output path outside the tar command")
     lst = lambda l: "[" + "; ".join("%d%%N" % x for x in l) + "]"  # noqa: E731
     return ("(* conductor/cli/archive.py handle_output_path / main / create_archive (codes in harness/gen_generated.py archive_item) *)\n"
-            "Definition gen_archive_output_decision (given exists_ is_dir parent_exists parent_is_dir : bool) : N := %s.\n"
+            "Definition gen_archive_output_decision (given exists_ is_dir parent_exists parent_is_dir gen_exists : bool) : N := %s.\n"
             "Definition gen_archive_before_try : list N := %s.\nDefinition gen_archive_try : list N := %s.\n"
             "Definition gen_archive_on_error : list N := %s.\nDefinition gen_archive_finally : list N := %s.\n"
             "Definition gen_archive_tar_is_the_only_writer : bool := true.\n"
